@@ -22,7 +22,7 @@ func init() {
 		Rule: "liveness restated as bounded progress: Stop must return within B=10s (an order of magnitude above what a correct implementation needs) WITHOUT any client action, and Run must then return nil. " +
 			"One evaluation = a fresh server brought into a connection state (none; 1/8/64 idle; half a frame sent; TLS listener with no / partial ClientHello; StartTLS-upgraded idle; StartTLS answered but handshake never started; busy pipelining; clients not reading " +
 			"large responses so that handlers block in Write (60KB frames that block in the write, 300-byte frames from two handlers that block in the flush, and a server configured with a 10-minute write timeout) - alone and combined ON THE SAME CONNECTION with an Unbind, a half-close, a pending StartTLS handshake or half a frame; all of them together) x optional concurrent second Stop, then Stop is called; plus Stop racing Run's start-up with no client at all (Run parked at its own log statements through the user-supplied logger, and random microsecond offsets), a connection with a history of 150 recovered handler panics, and idle connections left over by a PRNG-chosen history of 4..20 connections coming and going. If B expires the harness dumps goroutines and lets the clients go: a Stop parked in " +
-			"WaitGroup.Wait with a gldap connection goroutine parked in network I/O, released only when the clients close, is a violation; anything else is inconclusive. " +
+			"WaitGroup.Wait with a gldap connection goroutine parked in network I/O, released only when the clients close, is a violation, and so is a Stop that is parked while every handler still running sits inside gldap's own ResponseWriter.Write; anything else is inconclusive. " +
 			"distinct_nontrivial = distinct (state, #connections, second-Stop) triples with at least one connection open at Stop time",
 		Assume: []string{"handlers that block in application code (not in gldap's Write) are outside the statement: the workload's handlers only ever block inside ResponseWriter.Write"},
 		Phases: func(tier string, seed int64) []Phase {
@@ -451,9 +451,25 @@ wait:
 		// no application handler is running, so nothing outside gldap can be what Stop is waiting for
 		c.Violate("Stop blocks although no handler is running: "+st.Name,
 			fmt.Sprintf("state %s: Stop had not returned after %s; it is parked in WaitGroup.Wait, a gldap connection goroutine is still parked and no handler is running (released after the clients closed: %v)", sig, c11Bound, released), det)
+	} else if inWrite := countGoroutines(dump, "(*ResponseWriter).Write"); stopParked && inHandlers.Load() > 0 && int64(inWrite) >= inHandlers.Load() {
+		// every handler that is still running sits inside gldap's own Write (the workload's handlers block nowhere
+		// else): whatever Write is parked on - the network, or gldap's writer lock - Stop has to get it out of there
+		det["handlers_parked_inside_ResponseWriter_Write"] = inWrite
+		c.Violate("Stop blocks while handlers are parked inside ResponseWriter.Write: "+st.Name,
+			fmt.Sprintf("state %s: Stop had not returned after %s; %d handlers are still running and all of them are parked inside gldap's ResponseWriter.Write (released after the clients closed: %v)", sig, c11Bound, inHandlers.Load(), released), det)
 	} else {
 		c.Inconclusive(fmt.Sprintf("state %s: Stop exceeded %s but the goroutine dump does not show the client-held shape (stopParked=%v connParked=%v released=%v)", sig, c11Bound, stopParked, connParked, released))
 	}
+}
+
+func countGoroutines(dump []string, frame string) int {
+	n := 0
+	for _, g := range dump {
+		if strings.Contains(g, frame) {
+			n++
+		}
+	}
+	return n
 }
 
 func trimDump(d []string, n int) []string {
